@@ -34,6 +34,7 @@ EXPLANATION = (
     "unimodal D attains its maximum over the binning at an end point, ALL_MIDS or LOW+HIGH with a max-reduction is "
     "required. R3-R6 are def-use / table rules (flag agreement, unit conversion table folding, index and side "
     "consistency, DD/DR/RD/RR role table)."
+    " Later rounds: R7-R11 (closed side at the tree build, weight grid, options reaching the count, homogeneity of stored weight sums, cosmology forwarding); R12: the pair iterator's draining loop runs while a single entry is left (loop test folded over sizes 0..3); R1 also bounds the coefficients of the combined radii (maximum over catalogs of radius + centre offset) from below by one and checks that the linked ids are selected BY the comparison mask; R5 folds the definition of the auto flag for 'no second catalog' / 'second catalog'."
 )
 ASSUMPTIONS = [
     "triangle inequality on the sphere: objects of patches i, j can be closer than theta only if dist(c_i, c_j) < r_i + r_j + theta, with r measured from the centres used in the distance",
